@@ -92,13 +92,24 @@ def run(M, rec, tier, seed, k, n):
             with_p = rng.random() < 0.5
             cand = CC.candidate_params(desc, pars)
             keys = rng.sample(cand, rng.randint(1, min(5, len(cand)))) if with_p else []
+            # segments of different lengths: the length of a link given as one value per segment (all link
+            # equations are element-wise; only where no merging / lane-drop term singles out a segment)
+            seg_po = {}
+            if rng.random() < 0.2:
+                pars = dict(pars, delta=None, phi=None)
+            if pars.get("delta") is None and pars.get("phi") is None and rng.random() < 0.7:
+                for l_ in desc["links"]:
+                    if l_["N"] >= 2 and rng.random() < 0.6:
+                        seg_po[(l_["id"], "L")] = np.array([round(l_["L"] * rng.uniform(0.5, 1.5), 3) for _s in range(l_["N"])])
+                if seg_po:
+                    rec.count("cases_with_per_segment_lengths")
             twins = []
             for vals, as_int in zip(points, intflags):
                 if as_int:
                     rec.count("points_with_integer_arrays_on_the_numpy_side")
                 try:
                     nxt, _ = CC.numpy_twin_next(M, desc, vals, pars, opts, scalar_shape=rng.choice(("vec1", "0d", "float")),
-                                                int_dtype=as_int)
+                                                int_dtype=as_int, param_override=(seg_po or None))
                 except Exception as e:
                     rec.count("numpy_twin_failed")
                     rec.seen("numpy_twin_failed", repr(e)[:120])
@@ -107,7 +118,8 @@ def run(M, rec, tier, seed, k, n):
             for st in ("SX", "MX"):
                 try:
                     case = CC.CompileCase(M, rng, desc, pars, st, keys, opts, own_symbols=(rng.random() < 0.6),
-                                          fixed_from=points[0], fixed_prob=0.35, named_scalars_prob=0.3, scaled_prob=0.3)
+                                          fixed_from=points[0], fixed_prob=0.35, named_scalars_prob=0.3, scaled_prob=0.3,
+                                          param_override=(seg_po or None))
                     if case.scaled:
                         rec.count("cases_with_inputs_given_as_expressions_of_user_symbols")
                     if case.fixed:
